@@ -219,6 +219,14 @@ func verifC18Dial() {
 		} else {
 			j, ok := err.(interface{ Unwrap() []error })
 			vAssert(ok && len(j.Unwrap()) == nt, "the returned error joins the errors of all failed attempts, timed-out ones included")
+			for _, a := range atts {
+				if a.outcome == 1 && !a.ctxEnded {
+					vAssert(errors.Is(err, errVTransport), "the dial function's own error can be found in the returned error (errors.Is)")
+				}
+				if a.outcome == 2 && a.ctxEnded {
+					vAssert(errors.Is(err, context.DeadlineExceeded) || errors.Is(err, context.Canceled), "a timed-out attempt's context error can be found in the returned error")
+				}
+			}
 		}
 		vReach("all-failed")
 	}
